@@ -74,6 +74,26 @@ func (m *Model) CloseConn(cid int) error {
 	return err
 }
 
+// ConnInfo: the model's session state of a connection (selected database, protocol version, name, queue length or -1)
+func (m *Model) ConnInfo(cid int) (db int, resp int, name string, queued int, err error) {
+	l, err := m.line(fmt.Sprintf("CONN %d", cid))
+	if err != nil {
+		return 0, 0, "", 0, err
+	}
+	f := strings.Fields(l)
+	if len(f) != 5 || f[0] != "CONN" {
+		return 0, 0, "", 0, fmt.Errorf("model answered %q to CONN", l)
+	}
+	fmt.Sscan(f[1], &db)
+	fmt.Sscan(f[2], &resp)
+	name = string(unhex(f[3]))
+	queued = -1
+	if f[4] != "-" {
+		fmt.Sscan(f[4], &queued)
+	}
+	return db, resp, name, queued, nil
+}
+
 // Step runs one command; returns the wire reply as an s-expression tree and the would-block flag.
 func (m *Model) Step(cid int, nowNs int64, args [][]byte) (*Sx, bool, error) {
 	var sb strings.Builder
